@@ -309,7 +309,11 @@ impl Scheduler for WorkerScheduler {
         self.0.would_block(op, type_name, addr)
     }
     fn acquired(&self, op: LockOp, type_name: &'static str, addr: usize) {
-        self.0.acquired(op, type_name, addr)
+        // a second point right after the acquisition: another worker may run while this one is
+        // inside its critical section (what a `try_lock` elsewhere observes depends on it)
+        if op != LockOp::DbWrite {
+            self.0.arrive(false, op, type_name, addr);
+        }
     }
     fn snapshot(&self, delta: i32) {
         self.0.snapshot(delta)
@@ -365,6 +369,8 @@ enum Job {
     Recv,
     /// create a new gluon thread from the worker's thread and run on it
     Spawn,
+    /// send 3 heap values (strings built at run time) into the root-owned channel, then receive them
+    SendRecvStr,
 }
 
 fn job_name(j: Job) -> &'static str {
@@ -378,11 +384,12 @@ fn job_name(j: Job) -> &'static str {
         Job::Send => "send",
         Job::Recv => "recv",
         Job::Spawn => "spawn",
+        Job::SendRecvStr => "send-then-recv-strings",
     }
 }
 
 fn job_parse(s: &str) -> Option<Job> {
-    [Job::ImportM, Job::ImportM2, Job::ReloadM, Job::Alloc, Job::AllocRoot, Job::CollectRoot, Job::Send, Job::Recv, Job::Spawn]
+    [Job::ImportM, Job::ImportM2, Job::ReloadM, Job::Alloc, Job::AllocRoot, Job::CollectRoot, Job::Send, Job::Recv, Job::Spawn, Job::SendRecvStr]
         .iter()
         .cloned()
         .find(|j| job_name(*j) == s)
@@ -397,14 +404,15 @@ struct World {
     chan: Option<H>,
 }
 
-fn setup(n: usize, needs_channel: bool) -> World {
+fn setup(n: usize, needs_channel: bool, strings: bool) -> World {
     let root = vmkit::make_vm_with_prim(Settings { run_io: true, ..Settings::bare() });
     let _ = vmkit::run(&root, "warm", "let _ = import! std.types\nlet _ = import! std.prim\nlet _ = import! verif.prim\nlet _ = import! std.io.prim\nlet _ = import! std.channel\n0");
     root.get_database_mut().add_module("m".into(), MODULE_M);
     let chan = if needs_channel {
         // a channel owned by the root thread; the workers get it as an argument (children may
         // share the values of their parent)
-        root.run_expr::<H>("mkchan", "let { channel } = import! std.channel\nchannel 0").ok().map(|x| x.0)
+        let seed = if strings { "\"\"" } else { "0" };
+        root.run_expr::<H>("mkchan", &format!("let {{ channel }} = import! std.channel\nchannel {}", seed)).ok().map(|x| x.0)
     } else {
         None
     };
@@ -433,8 +441,10 @@ fn run_job(w: &World, me: usize, job: Job) -> String {
             w.root.collect();
             return "collected".to_string();
         }
-        Job::Send | Job::Recv => {
-            let src = if job == Job::Send {
+        Job::Send | Job::Recv | Job::SendRecvStr => {
+            let src = if job == Job::SendRecvStr {
+                "let { send, recv } = import! std.channel\nlet { Result } = import! std.types\nlet string = import! std.string.prim\nlet { flat_map, wrap } = import! std.io.prim\nlet v r =\n    match r with\n    | Ok x -> x\n    | Err _ -> \"<empty>\"\n\\c ->\n    do _ = send c.sender (string.append \"first-\" \"message\")\n    do _ = send c.sender (string.append \"second-\" \"message\")\n    do _ = send c.sender (string.append \"third-\" \"message\")\n    do a = recv c.receiver\n    do b = recv c.receiver\n    do d = recv c.receiver\n    wrap [v a, v b, v d]"
+            } else if job == Job::Send {
                 "let { send } = import! std.channel\nlet { flat_map, wrap } = import! std.io.prim\n\\c ->\n    do _ = send c.sender 1\n    do _ = send c.sender 2\n    do _ = send c.sender 3\n    wrap [3]"
             } else {
                 "let { recv } = import! std.channel\nlet { Result } = import! std.types\nlet { flat_map, wrap } = import! std.io.prim\nlet v r =\n    match r with\n    | Ok x -> x\n    | Err _ -> 0\n\\c ->\n    do a = recv c.receiver\n    do b = recv c.receiver\n    do d = recv c.receiver\n    wrap [v a, v b, v d]"
@@ -509,7 +519,8 @@ fn execute(jobs: &[Job], prefix: &[usize], shared_locks: &BTreeSet<LockId>) -> E
     });
     // set-up on this thread, naming the locks
     vmkit::take_ticks();
-    let needs_channel = jobs.iter().any(|j| matches!(j, Job::Send | Job::Recv));
+    let needs_channel = jobs.iter().any(|j| matches!(j, Job::Send | Job::Recv | Job::SendRecvStr));
+    let strings = jobs.contains(&Job::SendRecvStr);
     // the set-up runs on a thread of its own so that a set-up that never finishes (a lock taken
     // twice by the same thread) is a verdict and not a hang of the explorer
     let world = {
@@ -519,7 +530,7 @@ fn execute(jobs: &[Job], prefix: &[usize], shared_locks: &BTreeSet<LockId>) -> E
             .stack_size(32 << 20)
             .spawn(move || {
                 verif::set_scheduler(Some(Arc::new(SetupScheduler(shared2))));
-                let w = setup(n, needs_channel);
+                let w = setup(n, needs_channel, strings);
                 verif::set_scheduler(None);
                 let _ = tx.send((w, vmkit::ticks_of("m")));
             })
@@ -554,6 +565,10 @@ fn execute(jobs: &[Job], prefix: &[usize], shared_locks: &BTreeSet<LockId>) -> E
                 .stack_size(32 << 20)
                 .spawn(move || {
                     vmkit::record_panics();
+                    // freed blocks are poisoned and never reused: a value freed by a collection that
+                    // raced with this or another worker is read as garbage, deterministically
+                    verif::reset(true);
+                    verif::with(|s| s.quarantine = true);
                     let h = Handle { id: i, shared: shared.clone() };
                     verif::set_scheduler(Some(Arc::new(WorkerScheduler(Handle { id: i, shared: shared.clone() }))));
                     let r = std::panic::catch_unwind(std::panic::AssertUnwindSafe(|| {
@@ -657,13 +672,14 @@ fn execute(jobs: &[Job], prefix: &[usize], shared_locks: &BTreeSet<LockId>) -> E
 /// result of worker `i` when it runs alone (the other workers do nothing)
 fn solo(jobs: &[Job], i: usize) -> String {
     vmkit::take_ticks();
-    let needs_channel = jobs.iter().any(|j| matches!(j, Job::Send | Job::Recv));
+    let needs_channel = jobs.iter().any(|j| matches!(j, Job::Send | Job::Recv | Job::SendRecvStr));
     let (tx, rx) = std::sync::mpsc::channel();
     let (n, job) = (jobs.len(), jobs[i]);
+    let strings = jobs.contains(&Job::SendRecvStr);
     std::thread::Builder::new()
         .stack_size(32 << 20)
         .spawn(move || {
-            let world = setup(n, needs_channel);
+            let world = setup(n, needs_channel, strings);
             let _ = tx.send(run_job(&world, i, job));
         })
         .unwrap();
@@ -687,6 +703,8 @@ fn explore(jobs: &[Job], bound: usize, budget: Duration, max_exec: usize) -> Val
     let mut transitions = 0usize;
     let mut states: BTreeSet<String> = BTreeSet::new();
     let mut stuck_executions = 0usize;
+    let mut diverged_executions = 0usize;
+    let mut diverged_samples: Vec<String> = Vec::new();
     let mut points_total = 0usize;
     let mut distinct_outcomes: BTreeSet<String> = BTreeSet::new();
     let mut capped = false;
@@ -733,9 +751,24 @@ fn explore(jobs: &[Job], bound: usize, budget: Duration, max_exec: usize) -> Val
             let key_jobs = jobs.iter().map(|j| job_name(*j)).collect::<Vec<_>>().join("+");
             let replay = json!({"jobs": jobs.iter().map(|j| job_name(*j)).collect::<Vec<_>>(), "schedule": schedule, "shared": shared.iter().map(|l| l.0.clone()).collect::<Vec<_>>()});
             if let Some(d) = &ex.diverged {
-                problems.push(json!({"kind": "machinery:replay-diverged", "what": d, "replay": replay}));
+                // the stuck timeout makes a schedule depend on timing when the machine is
+                // overloaded: such an execution is not explored (counted), it is never a verdict
+                diverged_executions += 1;
+                if diverged_samples.len() < 3 {
+                    diverged_samples.push(d.clone());
+                }
             } else if let Some(d) = &ex.deadlock {
-                problems.push(json!({"kind": format!("deadlock:{}", key_jobs), "what": format!("schedule {:?}: {}", schedule, d), "replay": replay, "stuck": ex.stuck_events}));
+                // the key names the waits-for set (operation and lock type), not the scenario:
+                // one lock-order defect has one key whatever jobs expose it
+                let mut waits: Vec<String> = d
+                    .split("; ")
+                    .filter_map(|w| w.split(" waits for ").nth(1))
+                    .map(|w| w.split('#').next().unwrap_or(w).to_string())
+                    .collect();
+                waits.sort();
+                waits.dedup();
+                let kind = if waits.is_empty() { format!("deadlock:{}", key_jobs) } else { format!("deadlock:waits-for[{}]", waits.join(", ")) };
+                problems.push(json!({"kind": kind, "what": format!("[{}] schedule {:?}: {}", key_jobs, schedule, d), "replay": replay, "stuck": ex.stuck_events}));
             } else if ex.timed_out {
                 problems.push(json!({"kind": format!("no-termination:{}", key_jobs), "what": format!("schedule {:?}: the execution did not finish within {:?}", schedule, T_EXECUTION), "replay": replay, "stuck": ex.stuck_events}));
             } else {
@@ -767,6 +800,9 @@ fn explore(jobs: &[Job], bound: usize, budget: Duration, max_exec: usize) -> Val
             }
             if problems.len() >= 6 {
                 break 'fix;
+            }
+            if ex.diverged.is_some() {
+                continue;
             }
             // ---- children: deviate at every later decision
             for i in prefix.len()..ex.decisions.len() {
@@ -800,6 +836,8 @@ fn explore(jobs: &[Job], bound: usize, budget: Duration, max_exec: usize) -> Val
         "transitions": transitions,
         "states": states.len(),
         "stuck_executions": stuck_executions,
+        "diverged_executions": diverged_executions,
+        "diverged_samples": diverged_samples,
         "points_total": points_total,
         "shared_locks": shared.iter().map(|l| l.0.clone()).collect::<Vec<_>>(),
         "distinct_outcomes": distinct_outcomes.len(),
@@ -846,6 +884,10 @@ fn scenarios(tier: &str) -> Vec<Vec<Job>> {
         vec![Job::Send, Job::Recv],
         vec![Job::Spawn, Job::CollectRoot],
         vec![Job::Spawn, Job::Spawn],
+        vec![Job::Recv, Job::CollectRoot],
+        vec![Job::Send, Job::AllocRoot],
+        vec![Job::SendRecvStr, Job::CollectRoot],
+        vec![Job::SendRecvStr, Job::AllocRoot],
     ];
     if tier != "quick" {
         v.push(vec![Job::ImportM, Job::ImportM2, Job::CollectRoot]);
@@ -874,6 +916,7 @@ pub fn run(tier: &str) -> Report {
     let mut transitions = 0u64;
     let mut executions = 0u64;
     let mut stuck = 0u64;
+    let mut diverged = 0u64;
     let mut exhaustive = !iso.capped;
     let mut per_scenario = Vec::new();
     for (i, o) in iso.outcomes.iter().enumerate() {
@@ -890,12 +933,13 @@ pub fn run(tier: &str) -> Report {
                 transitions += r["transitions"].as_u64().unwrap_or(0);
                 executions += r["executions"].as_u64().unwrap_or(0);
                 stuck += r["stuck_executions"].as_u64().unwrap_or(0);
+                diverged += r["diverged_executions"].as_u64().unwrap_or(0);
                 if r["capped"].as_bool().unwrap_or(false) {
                     exhaustive = false;
                 }
                 per_scenario.push(json!({"scenario": name, "executions": r["executions"], "decisions": r["transitions"], "scheduling_points": r["points_total"],
                     "shared_locks": r["shared_locks"], "distinct_outcomes": r["distinct_outcomes"], "completed_preemption_bound": r["completed_preemption_bound"],
-                    "executions_that_needed_the_stuck_timeout": r["stuck_executions"], "capped": r["capped"], "solo_results": r["solo"]}));
+                    "executions_that_needed_the_stuck_timeout": r["stuck_executions"], "diverged_executions": r["diverged_executions"], "capped": r["capped"], "solo_results": r["solo"]}));
                 for s in r["samples"].as_array().cloned().unwrap_or_default().into_iter().take(1) {
                     report.sample(s);
                 }
@@ -921,6 +965,13 @@ pub fn run(tier: &str) -> Report {
     report.set("traces_validated_against_impl", executions);
     report.set("executions", executions);
     report.set("executions_that_needed_the_stuck_timeout", stuck);
+    report.set("executions_not_explored_because_the_replay_diverged", diverged);
+    if diverged > 0 {
+        exhaustive = false;
+    }
+    if executions > 0 && diverged * 5 > executions {
+        report.machinery(format!("{} of {} executions diverged from their schedule prefix: the machine is too loaded for the stuck timeout", diverged, executions));
+    }
     report.set("scenarios", json!(per_scenario));
     report.set("exhaustive", exhaustive);
     report.set("wall_cap_hit", !exhaustive);
